@@ -134,6 +134,12 @@ def ground_predicate(
         for param, param_type in domain.predicates[predicate_name].signature.items()
     }
     predicate_params = list(predicate.signature.keys())
+    if len(predicate_params) != len(predicate_signature):
+        raise ValueError(
+            f"Cannot ground the predicate {predicate.untyped_representation} - its parameters do not match "
+            f"the definition {str(domain.predicates[predicate_name])} (wrong arity or a repeated parameter)."
+        )
+
     if len(domain.constants) > 0:
         predicate_params.extend(list(domain.constants.keys()))
 
